@@ -59,6 +59,99 @@ def error_grammars(rng, n, strict=None, error_share=0.7):
     return out
 
 
+def nested_error_case(rng):
+    """Nested constructs with an `error' alternative on every level and recovery
+    tails that share terminals: going far back is often cheaper than skipping
+    forward, and the back frontier has to advance several times."""
+    from .gram import Rule, Grammar
+    L = rng.randrange(2, 6)
+    alpha = ["p", "q", "r", "x", "y"]
+    used = set()
+    rules = []
+    prefixes = []
+    tails = []
+    for i in range(L + 1):
+        tail = [rng.choice(alpha) for _ in range(rng.randrange(1, 7))]
+        tails.append(tail)
+        if i < L:
+            pre = ["k%d" % i] + (["m%d" % i] if rng.random() < 0.6 else []) + (["n%d" % i] if rng.random() < 0.2 else [])
+            prefixes.append(pre)
+            rules.append(Rule("N%d" % i, pre + ["N%d" % (i + 1)], "l%d" % i, 1, list(range(len(pre) + 1))))
+        else:
+            rules.append(Rule("N%d" % i, ["z"], None, 0, [0]))
+        if i > 0 or rng.random() < 0.5:
+            rules.append(Rule("N%d" % i, [ERR] + tail, "e%d" % i, 1, []))
+        used.update(tail)
+    terms = []
+    for r in rules:
+        for x in r.rhs:
+            if x != ERR and not x.startswith("N") and x not in [t[0] for t in terms]:
+                terms.append((x, 300 + len(terms)))
+    for x in alpha + ["z"]:
+        if x not in [t[0] for t in terms]:
+            terms.append((x, 300 + len(terms)))
+    if rng.random() < 0.5:
+        # competing recoveries: three (or more) levels expect `error'; the innermost can recover by skipping X
+        # tokens, the levels between cannot recover at all, an outer one recovers at once; the back distances
+        # b1, b2.. and X are drawn so that X is often just above the total back distance
+        nlev = rng.randrange(3, 5)
+        bs = [rng.choice([1, 1, 2])] + [rng.choice([1, 2, 2, 3]) for _ in range(nlev - 2)]
+        tot = sum(bs)
+        X = rng.choice([tot + 1, tot + 1, tot + 2, tot - 1, rng.randrange(1, tot + 4)])
+        X = max(1, min(X, 7))
+        names = ["N%d" % i for i in range(nlev)]
+        rules = []
+        pre = []
+        seq = list(reversed(bs))          # prefix lengths from outer to inner
+        lead = ["k0"]
+        rules.append(Rule("S", lead + [names[0]], "top", 1, [0, 1]))
+        for i in range(nlev):
+            if i < nlev - 1:
+                pr = ["k%d_%d" % (i + 1, t) for t in range(seq[i])]
+                pre.append(pr)
+                rules.append(Rule(names[i], pr + [names[i + 1]], "l%d" % i, 1, list(range(len(pr) + 1))))
+            else:
+                rules.append(Rule(names[i], ["z"], None, 0, [0]))
+        G_ = [rng.choice(alpha) for _ in range(X)]
+        U_ = [rng.choice(alpha) for _ in range(rng.randrange(1, 6))]
+        rules.append(Rule(names[0], [ERR] + G_ + U_, "e0", 1, []))
+        rules.append(Rule(names[-1], [ERR] + U_, "eN", 1, []))
+        for i in range(1, nlev - 1):
+            rules.append(Rule(names[i], [ERR, "z", "z"], "e%d" % i, 1, []))
+        terms = []
+        for r in rules:
+            for x in r.rhs:
+                if x != ERR and not x.startswith("N") and x not in [t[0] for t in terms]:
+                    terms.append((x, 300 + len(terms)))
+        for x in alpha + ["z"]:
+            if x not in [t[0] for t in terms]:
+                terms.append((x, 300 + len(terms)))
+        g = Grammar(terms, rules)
+        w = list(lead)
+        for pr in pre:
+            w += pr
+        inputs = [w + G_ + U_, w + G_ + U_ + [rng.choice(alpha)], w + G_[1:] + U_]
+        return g, [x for x in inputs if len(x) <= 20]
+    g = Grammar(terms, rules)
+    inputs = []
+    for _ in range(rng.randrange(3, 8)):
+        d = rng.randrange(1, L + 1)
+        w = []
+        for i in range(d):
+            w += prefixes[i]
+        if rng.random() < 0.3 and w:
+            w = w[:-1]                       # break inside a prefix
+        j = rng.randrange(0, d + 1)
+        garbage = [rng.choice(alpha + ["z"]) for _ in range(rng.randrange(0, 4))]
+        tail = list(tails[j])
+        if rng.random() < 0.3 and len(tail) > 1:
+            tail = tail[rng.randrange(1, len(tail)):]
+        w += garbage + tail + ([rng.choice(alpha)] if rng.random() < 0.2 else [])
+        if len(w) <= 16:
+            inputs.append(w)
+    return g, inputs
+
+
 def rec_inputs(rng, g, ref, n_inputs, maxlen):
     terms = g.term_names()
     ins = gen.inputs_for(rng, g, 3, 12, maxlen)
@@ -465,6 +558,17 @@ def _worker(args):
         for w in rec_inputs(rng, g, ref, n_inputs, maxlen):
             cases.append((gi, sem.CaseInfo(cid, g, strict, w, P["configs"], name)))
             cid += 1
+    if pid in ("C06", "C08"):
+        gi = len(grams)
+        for _ in range(max(4, n_grammars // 2)):
+            g, ins = nested_error_case(rng)
+            if oracle.wf(g, 1):
+                continue
+            refs[gi] = oracle.Ref(g)
+            for w in ins:
+                cases.append((gi, sem.CaseInfo(cid, g, 1, w, P["configs"], "nested_error")))
+                cid += 1
+            gi += 1
     tr = sem.run_cases(variant, [c for _, c in cases], None)
     ctx = {}
     for gi, ci in cases:
